@@ -6,6 +6,8 @@
 //!  optional tcp_capacity (default 64) and busy_ticks (default 6) for the burst port 9004: the server writes
 //!  tcp_capacity records to each accepted stream and idles, client tasks G (peek + read_exact) and H (plain
 //!  reads) stay busy for busy_ticks and then drain their stream to its end)
+//! (optional cfg.bg_panic = [host, incarnation, ticks]: that incarnation of the host spawns a local background task
+//!  that panics `ticks` ticks after its start and logs ["bgp", "panic"] just before)
 //! ev   = ["step"] | ["crash", sel] | ["bounce", sel] | ["probe"]
 //! sel  = {"h": i} | {"ip": i} | {"re": "regex"}          (hosts are n0 .. n3)
 //!
@@ -911,6 +913,10 @@ fn run_once(case: &Value, with_faults: bool) -> Value {
         .as_array()
         .map(|a| a.iter().map(|x| x.as_u64().unwrap() as usize).collect())
         .unwrap_or_default();
+    // optional [host, incarnation, ticks]: see the host closure
+    let bg_panic: Option<(usize, u64, u32)> = cfg["bg_panic"].as_array().map(|a| {
+        (a[0].as_u64().unwrap() as usize, a[1].as_u64().unwrap(), a[2].as_u64().unwrap() as u32)
+    });
     for h in 0..NH {
         let sh2 = sh.clone();
         let mc_member = mc_members.contains(&h);
@@ -921,7 +927,18 @@ fn run_once(case: &Value, with_faults: bool) -> Value {
                 s[h] - 1
             };
             let c = Ctx { sh: sh2.clone(), host: h, inc, tick, mc_member, cap, busy };
+            let bgp = bg_panic.filter(|(bh, binc, _)| *bh == h && *binc == inc).map(|x| x.2);
             async move {
+                if let Some(ticks) = bgp {
+                    // a background task of this incarnation panics `ticks` ticks after the software started:
+                    // turmoil's LocalSet is built with unhandled_panic(ShutdownRuntime), so Sim::step must panic
+                    let c = c.clone();
+                    tokio::task::spawn_local(async move {
+                        tokio::time::sleep(c.tick * ticks).await;
+                        c.log("bgp", "panic", json!(ticks), Value::Null);
+                        panic!("scripted panic of a background task");
+                    });
+                }
                 match h {
                     0 => server(c).await,
                     1 => client(c).await,
